@@ -416,11 +416,17 @@ def _markov_product_rule(prog: Program, col: Collector, refs: Refs, cat):
     for node in ast.walk(f.node):
         if not isinstance(node, ast.If):
             continue
-        t = node.test
+        t, neg = node.test, False
+        while isinstance(t, ast.UnaryOp) and isinstance(t.op, ast.Not):
+            t, neg = t.operand, not neg
+        if isinstance(t, ast.Compare) and len(t.ops) == 1 and isinstance(t.ops[0], (ast.IsNot, ast.NotIn)):
+            t = ast.Compare(left=t.left, ops=[ast.Is() if isinstance(t.ops[0], ast.IsNot) else ast.In()], comparators=t.comparators)
+            neg = not neg
+        holds = node.orelse if neg else node.body
         if isinstance(t, ast.Compare) and len(t.ops) == 1 and isinstance(t.ops[0], ast.Is) and norm(t.left) == prod_p:
             o = cat.resolve_op(f.module, t.comparators[0]) if isinstance(t.comparators[0], (ast.Name, ast.Attribute)) else None
             ab = axioms.identify(cat, o) if o is not None else None
-            vals = [st.value for st in node.body if isinstance(st, (ast.Assign, ast.Return)) and st.value is not None]
+            vals = [st.value for st in holds if isinstance(st, (ast.Assign, ast.Return)) and st.value is not None]
             construct = f"{f.fq}::{norm(t)}"
             if ab not in ("ADD", "MUL") or not vals:
                 col.unresolved(construct, "branch of the absent-time compensation not recognised", f.loc(node))
@@ -433,7 +439,7 @@ def _markov_product_rule(prog: Program, col: Collector, refs: Refs, cat):
                       f"`{norm(v)[:40]}`: when the transition does not mention time, the product over the n time steps under `{norm(t.comparators[0])}` is "
                       f"trans {'*' if ab == 'ADD' else '**'} {time}.size", f.loc(node))
         if isinstance(t, ast.Compare) and len(t.ops) == 1 and isinstance(t.ops[0], ast.In) and norm(t.left) == f"{time}.name" and norm(t.comparators[0]) == f"{trans}.inputs":
-            vals = [st.value for st in node.body if isinstance(st, (ast.Assign, ast.Return)) and st.value is not None]
+            vals = [st.value for st in holds if isinstance(st, (ast.Assign, ast.Return)) and st.value is not None]
             n += 1
             ok = bool(vals) and isinstance(vals[0], ast.Call) and isinstance(vals[0].func, ast.Attribute) and vals[0].func.attr == "reduce" and norm(vals[0].func.value) == trans \
                 and len(vals[0].args) == 2 and norm(vals[0].args[0]) == prod_p and norm(vals[0].args[1]) in (f"{time}.name", time)
